@@ -1361,6 +1361,12 @@ class Engine(object):
       # left over for the next call to report. The resulting calc changes are discarded along with
       # out_actions: relative to before the call, nothing has changed.
       try:
+        # Data columns got their values back from the revert itself. Their trigger formulas must not
+        # run because of it (the revert touched their dependencies), or they would overwrite them.
+        for node in list(self.recompute_map):
+          table = self.tables.get(node.table_id)
+          if table and table.has_column(node.col_id) and not table.get_column(node.col_id).is_formula():
+            self.recompute_map.pop(node)
         self._bring_all_up_to_date()
       except Exception:
         log.error("Error recalculating after revert on failure: %s", traceback.format_exc())
